@@ -175,3 +175,96 @@ fn c11_prefix_96() {
 fn c11_prefix_160() {
     c11_prefix_n::<160>();
 }
+
+// ---------------------------------------------------------------- C15: sink chunking and sink errors
+
+use crate::verif_support::inject;
+
+const MAXCALLS: usize = 12;
+
+/// A sink obeying the `std::io::Write` contract with a symbolic schedule: call i
+/// accepts `min(len, limit[i])` bytes (limit >= 1), call `fail_at` returns a
+/// non-retryable error, call `intr_at` returns `Interrupted` (retryable).
+/// Instead of storing the bytes it compares each accepted byte in place against
+/// the canonical serialisation and counts them.
+struct ScheduledSink<'a> {
+    canon: &'a [u8],
+    pos: usize,
+    calls: usize,
+    limits: [usize; MAXCALLS],
+    fail_at: usize,
+    intr_at: usize,
+    mismatch: bool,
+    failed: bool,
+}
+
+impl<'a> ScheduledSink<'a> {
+    fn any(canon: &'a [u8]) -> Self {
+        let limits: [usize; MAXCALLS] = kani::any();
+        let mut i = 0;
+        while i < MAXCALLS {
+            kani::assume(limits[i] >= 1);
+            i += 1;
+        }
+        ScheduledSink { canon, pos: 0, calls: 0, limits, fail_at: kani::any(), intr_at: kani::any(), mismatch: false, failed: false }
+    }
+}
+
+impl<'a> Write for ScheduledSink<'a> {
+    fn write(&mut self, buf: &[u8]) -> std::io::Result<usize> {
+        let c = self.calls;
+        // the schedule is exhausted: the harness bound on the number of calls
+        kani::assume(c < MAXCALLS);
+        self.calls += 1;
+        if c == self.fail_at {
+            self.failed = true;
+            return Err(std::io::ErrorKind::BrokenPipe.into());
+        }
+        if c == self.intr_at {
+            return Err(std::io::ErrorKind::Interrupted.into());
+        }
+        let n = if buf.len() < self.limits[c] { buf.len() } else { self.limits[c] };
+        let mut i = 0;
+        while i < n {
+            if self.pos + i >= self.canon.len() || self.canon[self.pos + i] != buf[i] {
+                self.mismatch = true;
+            }
+            i += 1;
+        }
+        self.pos += n;
+        Ok(n)
+    }
+    fn flush(&mut self) -> std::io::Result<()> {
+        Ok(())
+    }
+}
+
+static ZEROS: [u8; 8] = [0; 8];
+
+/// C15 (unit): the writer's padding step. For every section length and every
+/// sink schedule: success => exactly the padding bytes (zeros up to the next
+/// multiple of 8) were accepted; a non-retryable sink error => failure, with
+/// only a prefix of the padding delivered.
+#[kani::proof]
+#[kani::unwind(14)]
+fn c15_padding_unit() {
+    let section_len: usize = kani::any();
+    let pad = (8 - section_len % 8) % 8;
+    let mut sink = ScheduledSink::any(&ZEROS[..pad]);
+    let r = write_padding(&mut sink, section_len);
+    let ok = r.is_ok();
+    match r {
+        Ok(()) => {
+            assert!(!sink.failed, "C15: success although the sink failed");
+            assert!(sink.pos == pad && !sink.mismatch, "C15: success but the padding was not delivered completely");
+        }
+        Err(e) => {
+            assert!(sink.failed, "C15: failure although the sink never failed");
+            assert!(sink.pos <= pad && !sink.mismatch, "C15: more than a prefix delivered");
+            core::mem::forget(e);
+        }
+    }
+    kani::cover!(pad == 4 && sink.calls == 4 && ok, "4 padding bytes delivered one by one");
+    kani::cover!(pad == 7 && sink.failed && sink.pos == 3, "failure in the middle of the padding");
+    kani::cover!(sink.intr_at < sink.calls && ok, "interrupted call retried");
+}
